@@ -496,7 +496,9 @@ def make_builtins(interp):
             try:
                 return ListV(sorted(items, key=_sort_key))
             except TypeError:
-                raise Unsupported("sorted of unorderable abstract values", n)
+                # symbolic keys: some permutation of the items (the order is unknown, the contents are not)
+                i.emit("reorder", "sorted", [a[0]], node=n, extra="symbolic")
+                return ListV(list(items))
         lo = ListOf(getattr(items, "elem", ("elem-of", items)), label=f"sorted({show(items)})")
         lo.source = items
         lo.derived = "sorted"
